@@ -182,8 +182,12 @@ func renderRow(v int) string {
 	case v == -4:
 		return "(3000000000, 'r7')" // INT out of 32 bits
 	}
-	return fmt.Sprintf("(%d, 'r%d')", v, v)
+	return fmt.Sprintf("(%d, '%s')", v, bOf(v))
 }
+
+// bOf is the text column that goes with value v of the INT column; its length depends on v, so that an
+// UPDATE changes the encoded length of the row.
+func bOf(v int) string { return fmt.Sprintf("r%d%s", v, strings.Repeat("y", v%6)) }
 
 func renderStmt(st Step) string {
 	switch st.A {
@@ -196,7 +200,7 @@ func renderStmt(st Step) string {
 		}
 		return fmt.Sprintf("INSERT INTO %s (a, b) VALUES %s", st.T, strings.Join(rows, ", "))
 	case "update":
-		set := fmt.Sprintf("a = %d, b = 'r%d'", st.V, st.V)
+		set := fmt.Sprintf("a = %d, b = '%s'", st.V, bOf(st.V))
 		if st.V < 0 {
 			set = "a = 'x'"
 		}
@@ -377,7 +381,7 @@ func (w *World) rowChecks(obs map[string][]RowOut) []string {
 	for t, rs := range obs {
 		var last uint32
 		for i, r := range rs {
-			if r.B != fmt.Sprintf("r%d", r.A) {
+			if r.B != bOf(int(r.A)) {
 				probs = append(probs, fmt.Sprintf("table %s row id %d: columns (a=%d, b=%q) do not belong together", t, r.ID, r.A, r.B))
 			}
 			if i > 0 && r.ID <= last {
@@ -621,6 +625,16 @@ func replay(sc Scenario) (res Result) {
 				res.Viol = append(res.Viol, fmt.Sprintf("statement %q panicked: %v", renderStmt(st), stmtErr))
 				return
 			}
+		case "evict":
+			if w.down || w.dead {
+				res.Diverged = "the specification continues but the real database is down"
+				return
+			}
+			if !storage.VerifSetCache(w.sess.RelationService, 10000) {
+				res.Diverged = "evict with dirty pages"
+				return
+			}
+			w.feat["evict"] = true
 		case "setcache":
 			if !storage.VerifSetCache(w.sess.RelationService, st.K) {
 				res.Diverged = "setcache with dirty pages"
